@@ -47,7 +47,7 @@ pub fn probe<D: SimData>(profile: &str, n: usize) {
         };
         let mut g = gen::Gen::new(&mut rng, cfg);
         let prog = g.program();
-        let src = prog.top();
+        let src = if std::env::var("PROBE_MIN").is_ok() { prog.min() } else { prog.top() };
         if std::env::var("PROBE_TRACE").is_ok() {
             eprintln!("#{} {:?}", i, src);
         }
